@@ -110,6 +110,20 @@ func main() {
 			}
 			res = runFSParent(o, stream, os.Args[2:])
 		}
+	case "forge":
+		o := fsOpts{seed: *seed, n: *n, length: *length, workers: *workers, driver: *driver, rs: ints(*rss), scratch: scratch, known: loadKnown(*knownPath),
+			thoroughCuts: *allCuts, pipes: splitSemi(*pipes), keyDir: *keyDir}
+		o.watchdog = time.Duration(*wd) * time.Second
+		for _, p := range o.pipes {
+			if _, err := h.WithPipe(h.DefaultCfg(), p, o.keyDir); err != nil {
+				fmt.Fprintln(os.Stderr, "keys:", err)
+				os.Exit(2)
+			}
+		}
+		res = runForge(o)
+	case "keys":
+		o := fsOpts{seed: *seed, n: *n, workers: *workers, driver: *driver, known: loadKnown(*knownPath)}
+		res = runKeys(o)
 	case "foreign-probe":
 		runForeignProbe(*seed, *n, ints(*rss))
 		return
